@@ -460,11 +460,24 @@ type histOp struct {
 	Arg int64 // setmax / gc argument
 }
 
+// plantedFile is a file put in the directory before the logger runs: as if
+// written earlier by the same program, possibly on a machine or under a user
+// with another name (the name is program.host.user.timestamp.pid.log; only the
+// time stamp decides the order).
+type plantedFile struct {
+	Stamp int64
+	Size  int64
+	Ids   []int64 // user messages it holds (formatted entries), oldest first
+	Host  string
+	User  string
+	Name  string
+}
+
 type histCase struct {
 	Logger   string // "main" or "secondary"
 	H        int64  // bytes of the header entries of every new file
 	Max0     int64
-	Planted  [][2]int64 // stamp, size
+	Planted  []plantedFile
 	Ops      []histOp
 	Snaps    [][]snapFile
 	Fetch    []int64 // FetchEntriesFromFiles, put back in chronological order (main logger only)
@@ -567,7 +580,8 @@ func (r *runner) look(lens map[int64]int64, h int64) []snapFile {
 			panic(err)
 		}
 		sf.Size = st.Size()
-		if !r.planted[fi.Name] {
+		{
+			planted := r.planted[fi.Name]
 			b, err := ioutil.ReadFile(filepath.Join(r.dir, fi.Name))
 			if err != nil {
 				panic(err)
@@ -577,14 +591,16 @@ func (r *runner) look(lens map[int64]int64, h int64) []snapFile {
 				sf.DecodeErr = txt
 			}
 			for _, e := range es {
-				r.gids[e.Goroutine] = true
+				if !planted {
+					r.gids[e.Goroutine] = true
+				}
 				if id, ok := idOf(e.Message); ok {
 					sf.Ids = append(sf.Ids, id)
 				} else {
 					sf.Other++
 				}
 			}
-			if lens != nil {
+			if lens != nil && !planted {
 				want := h
 				for _, id := range sf.Ids {
 					want += lens[id]
@@ -698,36 +714,63 @@ func runHist(rng *rand.Rand, kind string, cal calib, seq *int, gcOnly bool) (his
 	atomic.StoreInt64(&log.LogFileMaxSize, hc.Max0)
 	curMax := hc.Max0
 
-	// planted files: older than anything the logger creates now
+	// planted files: older than anything the logger creates now, some of them
+	// named after another host / user (sorting before and after the real
+	// names), some holding messages of their own
 	nPlant := 0
 	if gcOnly {
 		nPlant = rng.Intn(9)
-	} else if rng.Intn(3) == 0 {
+	} else if rng.Intn(2) == 0 {
 		nPlant = 1 + rng.Intn(4)
 	}
 	base := int64(1000000000 + rng.Intn(1000000))
 	stamps := map[int64]bool{}
+	hosts := []string{"", "", "aaahost", "zzzoldname", "Zhost", "0host", "~host"}
+	users := []string{"", "", "aaa", "zzzuser", "Root", "_u"}
+	plantedID := int64(1000000)
 	for i := 0; i < nPlant; i++ {
 		st := base + int64(rng.Intn(100000))
 		if stamps[st] {
 			continue
 		}
 		stamps[st] = true
-		var size int64
-		switch rng.Intn(5) {
+		pf := plantedFile{Stamp: st, Host: hosts[rng.Intn(len(hosts))], User: users[rng.Intn(len(users))]}
+		var content []byte
+		switch rng.Intn(6) {
 		case 0:
-			size = 0
 		case 1:
-			size = int64(rng.Intn(10))
+			content = make([]byte, rng.Intn(10))
+		case 2, 3:
+			content = make([]byte, rng.Intn(5000))
 		default:
-			size = int64(rng.Intn(5000))
+			// entries of an earlier run
+			var es []log.Entry
+			for j := 1 + rng.Intn(3); j > 0; j-- {
+				plantedID++
+				pf.Ids = append(pf.Ids, plantedID)
+				es = append(es, log.Entry{Severity: log.Severity_INFO, Time: st*1e9 + int64(len(es))*1000, Goroutine: 7,
+					File: "old/run.go", Line: 42, Message: mkMsg(plantedID, 8+rng.Intn(200))})
+			}
+			content = formatAll(es)
 		}
-		name := r.vl.FileName(st)
-		if err := ioutil.WriteFile(filepath.Join(r.dir, name), make([]byte, size), 0644); err != nil {
+		pf.Size = int64(len(content))
+		parts := strings.Split(r.vl.FileName(st), ".")
+		if len(parts) != 6 {
+			panic("unexpected log file name " + strings.Join(parts, "."))
+		}
+		if pf.Host != "" {
+			parts[1] = pf.Host
+		}
+		if pf.User != "" {
+			parts[2] = pf.User
+		}
+		pf.Host, pf.User = parts[1], parts[2]
+		pf.Name = strings.Join(parts, ".")
+		if err := ioutil.WriteFile(filepath.Join(r.dir, pf.Name), content, 0644); err != nil {
 			panic(err)
 		}
-		r.planted[name] = true
-		hc.Planted = append(hc.Planted, [2]int64{st, size})
+		r.planted[pf.Name] = true
+		hc.Planted = append(hc.Planted, pf)
 	}
 
 	nextID := int64(1)
@@ -883,7 +926,7 @@ func zs(l []int64) string {
 func coqHist(h histCase) string {
 	var pl, ops, snaps []string
 	for _, p := range h.Planted {
-		pl = append(pl, fmt.Sprintf("(%s, %s)", vh.Z(p[0]), vh.Z(p[1])))
+		pl = append(pl, fmt.Sprintf("(%s, %s, %s)", vh.Z(p.Stamp), vh.Z(p.Size), zs(p.Ids)))
 	}
 	for _, o := range h.Ops {
 		switch o.Op {
